@@ -183,7 +183,7 @@ theorem eff_step (hk : Function.Injective kname) (kinds : List Nat)
     obtain ⟨hlv, hlx, hly⟩ := relate_live h
     obtain ⟨x, hx, rfl, _⟩ := named R.store A.pool hc hlx
     obtain ⟨y, hy, rfl, _⟩ := named R.store A.pool hc hly
-    refine ⟨.store (.relate x y r p), ⟨hx, hy⟩, ?_, fun c hc' => hc c (by rw [← hlv]; exact hc')⟩
+    refine ⟨.store (.relate x y r p), ⟨hx.1, hy.1⟩, ?_, fun c hc' => hc c (by rw [← hlv]; exact hc')⟩
     simp only [specStepA, specStep, h]
   | unrelate X Y r p =>
     simp only [applyEff] at h
